@@ -60,9 +60,42 @@ Section Jd.
              if nodupb (map fst (p ++ news)) then Ok (r', p ++ news) else Err ValueError
          end.
 
+  (* create_joint_distribution(model) with rvs=None: every IIV distribution none of whose parameters
+     (mean and variance symbols) is fixed contributes all its names, in collection order *)
+  Variable fixed : id -> bool.                  (* model.parameters[name].fix *)
+  Definition default_rvs (r : scoll) : list id :=
+    flat_map (fun d => if existsb fixed (dsyms d) then [] else dnames d) (iiv sym r).
+  Definition create_joint_distribution_default (pn : list id) (p : params F) (r : scoll) :=
+    create_joint_distribution (default_rvs r) pn p r.
+
+  (* _choose_cov_param_init, individual-estimates branch, GIVEN the correlation matrix of the two etas'
+     individual estimates (pandas DataFrame.corr: input): cov = corr2cov(corr, sd); cov[cov == 0] = 0.0001;
+     cov = nearest_positive_semidefinite(cov); init = round(cov[1][0], 7) *)
+  Variable fadd : F -> F -> F.
+  Variable fis0 : F -> bool.
+  Variable fsmall : F.                          (* 0.0001 *)
+  Variable is_psd : list (list F) -> bool.
+  Variable repair : list (list F) -> list (list F).
+  Definition ie_cov_matrix (p : params F) (parent1 parent2 : id) (corr : list (list F)) : list (list F) :=
+    let sd := [fsqrt (pget F f0 p parent1); fsqrt (pget F f0 p parent2)] in
+    map (map (fun x => if fis0 x then fsmall else x)) (corr2cov F f0 fadd fmul corr sd).
+  Definition ie_cov_init (p : params F) (parent1 parent2 : id) (corr : list (list F)) : F :=
+    let A := ie_cov_matrix p parent1 parent2 corr in
+    let B := match nearest_psd F is_psd repair A with None => A | Some B => B end in
+    fround7 (fget F f0 B 1 0).
+
   (* split_joint_distribution: unjoin, then drop exactly the parameters that the random variables
      mentioned before and do not mention any more *)
   Definition split_joint_distribution (inds : list id) (p : params F) (r : scoll) : scoll * params F :=
     let r' := sunjoin inds r in
     (r', filter (fun kv => negb (memp (fst kv) (syms r) && negb (memp (fst kv) (syms r')))) p).
+  (* split_joint_distribution(model, rvs) with rvs given: _get_etas refuses an eta with a fixed parameter and
+     an IOV eta (ValueError); an unknown name is a KeyError *)
+  Definition split_joint_distribution_checked (inds : list id) (p : params F) (r : scoll)
+    : res (scoll * params F) :=
+    if existsb (fun x => match lookup sym r x with None => true | Some _ => false end) inds then Err KeyError
+    else if existsb (fun x => match lookup sym r x with
+                              | Some (_, d) => existsb fixed (dsyms d) || Pos.eqb (dlevel d) L_IOV
+                              | None => false end) inds then Err ValueError
+    else Ok (split_joint_distribution inds p r).
 End Jd.
